@@ -3,6 +3,7 @@
 -/
 import SigV4.Spec.ValidateSpec
 import SigV4.Lemmas.C14
+import SigV4.Lemmas.C14Poll
 
 namespace SigV4.C14
 
@@ -147,6 +148,36 @@ theorem history_never_ok_on_error {σ : Type} (H : Bytes → Bytes) (P : Provide
       rw [he] at hcall; cases hcall
     · exact ih _ o ho r hr
 
+/-- Pending states and re-polls (model `SigV4/Model/Poll.lean`: the validation as a polled future over
+`tower`'s `Oneshot` state machine). Polling to completion gives exactly the big-step outcome and
+provider calls whatever the numbers of `Pending` results; the provider is called at most once and
+only after all `pendingReady + 1` readiness polls, none of which reported an error; the future
+resolves after exactly `pendingReady + pendingAnswer + 1` polls when the provider is reached. -/
+theorem poll_refines_bigstep (H : Bytes → Bytes) (cfg : Config) (e : PollEntry) (req : Request)
+    (fuel : Nat) (hf : e.pendingReady + e.pendingAnswer + 1 ≤ fuel) :
+    ∃ log k, pollLoop H cfg e req fuel .start {} 0 = some ((validate H cfg e.bigStep () req).out, log, k) ∧
+      log.calls = (validate H cfg e.bigStep () req).calls ∧ log.calls.length ≤ 1 ∧
+      k ≤ e.pendingReady + e.pendingAnswer + 1 ∧
+      (log.calls ≠ [] → log.readyPolls = e.pendingReady + 1 ∧ e.readyErr = none ∧
+        log.futurePolls = e.pendingAnswer + 1 ∧ k = e.pendingReady + e.pendingAnswer + 1) :=
+  poll_refines_bigstep_lemma H cfg e req fuel hf
+
+/-- A request failing a pre-check is refused in the very first poll; the provider is not even polled. -/
+theorem poll_precheck_failure_immediate (H : Bytes → Bytes) (cfg : Config) (e : PollEntry) (req : Request)
+    (h : (∃ k, authOf H cfg req = .err k) ∨
+         (∃ a k, authOf H cfg req = .ok a ∧ prevalidate a cfg.region cfg.service cfg.now = .err k)) :
+    ∃ out, pollLoop H cfg e req 1 .start {} 0 = some (out, {}, 1) ∧ (∃ k, out = .err k) :=
+  poll_precheck_failure_immediate_lemma H cfg e req h
+
+/-- A readiness error ends the validation without any call, after exactly `pendingReady + 1` polls. -/
+theorem poll_ready_error (H : Bytes → Bytes) (cfg : Config) (e : PollEntry) (req : Request)
+    (a : Authenticator) (pe : ProvErr)
+    (ha : authOf H cfg req = .ok a) (hp : prevalidate a cfg.region cfg.service cfg.now = .ok ())
+    (he : e.readyErr = some pe) :
+    ∃ log, pollLoop H cfg e req (e.pendingReady + 1) .start {} 0 = some (.err pe.toKind, log, e.pendingReady + 1) ∧
+      log.calls = [] ∧ log.readyPolls = e.pendingReady + 1 :=
+  poll_ready_error_lemma H cfg e req a pe ha hp he
+
 end SigV4.C14
 
 #print axioms SigV4.C14.at_most_once
@@ -159,3 +190,6 @@ end SigV4.C14
 #print axioms SigV4.C14.history
 #print axioms SigV4.C14.history_step
 #print axioms SigV4.C14.history_never_ok_on_error
+#print axioms SigV4.C14.poll_refines_bigstep
+#print axioms SigV4.C14.poll_precheck_failure_immediate
+#print axioms SigV4.C14.poll_ready_error
